@@ -3,6 +3,8 @@
 Two client threads A and B issue the same closing action on the same open act; B's whole call runs at one of A's
 lock operations (mirsym/race.py).  The pre-emption point is a decision of the path: all of them are explored.
 """
+import os
+
 from mirsym.values import *
 from mirsym.world import TERMINAL
 from mirsym.harness import Violation, explore
@@ -257,20 +259,98 @@ class PairRaceRun(RaceRun):
             info.get("a"), info.get("b"), info.get("preempted_at"), info.get("site")), self.name, dict(decisions=list(I.path.taken), script=list(self.log)), model, detail))
 
 
+class JobRaceRun(PairRaceRun):
+    """A client action races with the scheduler loop: the client completes act X (no waiting), the signals this creates are pending, and the
+    client's next call (completing another open act Y) runs while the scheduler's worker executes ONE of those signals.  Either side may be the
+    one that is pre-empted at a lock operation."""
+
+    def run(self, snaps=None):
+        I = self.I
+        phase = self.restore(snaps)
+        if phase is None:
+            W = self.boot()
+            W.drain()
+            phase = 0
+            self.save(snaps, phase)
+        W = self.W
+        cands = self.open_irqs()
+        if len(cands) < 2:
+            return
+        ix = I.path.choose(len(cands), "first-act")
+        tx = cands[ix]
+        rest = [c for i, c in enumerate(cands) if i != ix]
+        ty = rest[I.path.choose(len(rest), "second-act")] if len(rest) > 1 else rest[0]
+        ox, oy = dict(self.outputs_for(tx)), dict(self.outputs_for(ty))
+        r0 = W.action(self.pid, tx["tid"], "Next", ox)
+        # the spawned queue sends only move the signals into the channel
+        while [1 for k, c in W.jobs if k == "send"]:
+            W.run_one("job", [i for i, (k, c) in enumerate(W.jobs) if k == "send"][0])
+        if not W.channel:
+            return
+        j = I.path.choose(len(W.channel), "signal") if len(W.channel) > 1 else 0
+        client_is_a = I.path.choose(2, "pre-empted-side") == 0
+
+        def client():
+            return W.action(self.pid, ty["tid"], "Next", oy)
+
+        def worker():
+            W.run_one("sig", j)
+            return ok(UNIT)
+
+        a_fn, b_fn = (client, worker) if client_is_a else (worker, client)
+        R = Race(b_fn, lambda idx: I.path.choose(2, "preempt") == 1)
+        I.race = R
+        R.active = True
+        try:
+            ra = a_fn()
+            R.finish_a(I)
+        finally:
+            R.active = False
+            I.race = None
+        rc = ra if client_is_a else R.b_result
+        self.race_info = dict(a=("client completes %s" % ty["nid"]) if client_is_a else "scheduler job", b="scheduler job" if client_is_a else ("client completes %s" % ty["nid"]),
+                              preempted_at=R.preempted_at, site=R.preempt_site)
+        self.log.append(dict(burst=[tx["nid"], ty["nid"]], options=[ox, oy], preempted_side="client" if client_is_a else "worker", preempted_at=R.preempted_at, site=R.preempt_site))
+        if not (r0 is not None and r0.d == 0 and rc is not None and rc.d == 0):
+            self.viol("rejected", "completing two open acts back to back: one call was rejected")
+        W.drain()
+        self.res.witnesses += 1
+        self.at_quiescence("race")
+        self.answer_all()
+        self.at_end()
+        if len(self.res.samples) < 3:
+            self.res.samples.append(dict(scenario=self.name, burst=[tx["nid"], ty["nid"]], preempted_side="client" if client_is_a else "worker", lock_operations_of_A=R.count,
+                                         preempted_at=R.preempted_at, final=[(t["nid"], t["state"]) for t in self.tasks()]))
+
+    def viol(self, role, desc, detail=None):
+        I = self.I
+        m = I.model()
+        model = {k: str(m.eval(v, model_completion=True)) for k, v in self.sym.items()} if m is not None else {}
+        info = getattr(self, "race_info", {})
+        self.res.violations.append(Violation(self.prop, "action-vs-scheduler:" + role, desc + " [A = %s, B = %s at A's lock operation %s, %s]" % (
+            info.get("a"), info.get("b"), info.get("preempted_at"), info.get("site")), self.name, dict(decisions=list(I.path.taken), script=list(self.log)), model, detail))
+
+
 def observe_pair(name, cfg, prop, script, zmodel, attempts=60):
     """Two OS threads released by one barrier, each completing one of the two acts, on the real engine (up to `attempts` fresh runs: the window is
     narrow); then everything open is answered and the same flow oracles are evaluated on what the engine shows.  Returns the union of roles seen."""
     from . import replay
     from .flow import ReplayRun, concrete_inputs as flow_inputs
     model, inputs = scen.catalogue()[name]
-    pair = [e for e in script if "race_pair" in e]
+    pair = [e for e in script if "race_pair" in e or "burst" in e]
     if not pair:
         return None, None
     pair = pair[0]
     sc_inputs = flow_inputs(inputs, zmodel)
-    steps = [{"op": "start", "mid": model["id"], "inputs": sc_inputs},
-             {"op": "race_pair", "nids": pair["race_pair"], "options": pair["options"]},
-             {"op": "answer_all", "max": 12, "options": {}}]
+    if "burst" in pair:
+        # the client completes the two acts back to back without waiting: the scheduler's worker thread is busy with the first while the second arrives
+        steps = [{"op": "start", "mid": model["id"], "inputs": sc_inputs},
+                 {"op": "burst", "nids": pair["burst"], "options": pair["options"]},
+                 {"op": "answer_all", "max": 12, "options": {}}]
+    else:
+        steps = [{"op": "start", "mid": model["id"], "inputs": sc_inputs},
+                 {"op": "race_pair", "nids": pair["race_pair"], "options": pair["options"]},
+                 {"op": "answer_all", "max": 12, "options": {}}]
     union = set()
     first = {}
 
@@ -305,7 +385,7 @@ def observe_pair(name, cfg, prop, script, zmodel, attempts=60):
             if r not in first:
                 first[r] = dict(attempt=a, tasks=[(t["nid"], t["state"]) for t in (obs["procs"][0]["tasks"] if obs["procs"] else [])])
         union |= set(roles)
-        if union and a >= 20:
+        if union and a >= (20 if "race_pair" in pair else 60):
             break
     return union, dict(scenario=steps, attempts=a + 1, first_seen=first)
 
@@ -315,7 +395,7 @@ def run_pair_race(I, name, cfg_kw, prop):
     snaps = {}
 
     def one(I, res):
-        r = PairRaceRun(I, res, name, cfg, prop)
+        r = (JobRaceRun if cfg_kw.get("with_scheduler") else PairRaceRun)(I, res, name, cfg, prop)
         orig = r.install_event_monitor
 
         def inst(rebind=False):
@@ -325,12 +405,12 @@ def run_pair_race(I, name, cfg_kw, prop):
         r.install_event_monitor = inst
         r.run(snaps)
 
-    res = explore(I, "pair-race:" + name, one, max_paths=cfg.max_paths, seed=cfg_kw.get("seed", 0))
+    res = explore(I, ("job-race:" if cfg_kw.get("with_scheduler") else "pair-race:") + name, one, max_paths=cfg.max_paths, seed=cfg_kw.get("seed", 0))
     if res.violations:
         from mirsym.harness import load_known
         known = load_known()
         v0 = res.violations[0]
-        union, info = observe_pair(name, cfg, prop, v0.decisions["script"], v0.model)
+        union, info = observe_pair(name, cfg, prop, v0.decisions["script"], v0.model, attempts=250 if cfg_kw.get("with_scheduler") else 60)
         keep = []
         dropped = set()
         for v in res.violations:
@@ -345,6 +425,8 @@ def run_pair_race(I, name, cfg_kw, prop):
                 # a race the real engine did not show in the attempts made: not reported (it may need a narrower window, or the model may allow an
                 # interleaving the engine's locking excludes); listed as inconclusive in the evidence
                 dropped.add(v.role)
+                if os.environ.get("VERIF_SHOW_DROPPED"):
+                    print("DROPPED", v.role, "|", v.desc[:400])
         res.violations = keep
         if dropped:
             res.inconclusive = "race counterexamples not reproduced on the real engine in %s attempts (not reported): %s" % ((info or {}).get("attempts"), sorted(dropped)[:6])
